@@ -379,6 +379,8 @@ func c08(c *core.Check) {
 			return isMap && strings.HasSuffix(mt.Elem().String(), "properties.RawTokens")
 		})
 		r5.Cond(ok, "html/tree.resolveVar | computed[variableName]", p.Pos(rv.Pos()), why, why+": --a: var(--a) recurses until the stack is exhausted")
+		ok2, why2 := core.DescendingRecursion(p, rv, 1)
+		r5.Cond(ok2, "html/tree.resolveVar | recursion descends", p.Pos(rv.Pos()), why2, why2+": a function whose nested argument still holds a var() is rebuilt and resolved again without end")
 	}
 }
 
